@@ -74,7 +74,7 @@ def modelCacheExtremum (E : Env) (sup : Ops) (isMax : Bool) (e : Exp) (extra : L
                else (if signed then fe.minSExh else fe.minExh)
   let cached :=
     if extra.isEmpty && (fe.evalExh.contains e.id || flags.contains e.id) then
-      (allBatchSolutions E fe [e] [] false).map fun t => t.headD 0
+      (allBatchSolutions E fe [e] [] true).map fun t => t.headD 0
     else []
   match pickBy (if isMax then (fun a b => decide (a > b)) else (fun a b => decide (a < b))) (key signed e.bits) cached with
   | some v => pure (v : Int)
